@@ -4,7 +4,7 @@ import AkVerif.Model.PPrint
 Driver of C11. One request per line, `<mode>` is `j` (JSON constants) or `p` (Python constants),
 `<value>` is a postfix program:
 
-  `s:<cps>` string   `i:<int>` int   `n:<cps>` float (its `str()` text)   `T` `F` `Z` true/false/none
+  `s:<cps>` string   `i:<int>` / `x:<hex>` int   `n:<cps>` float (its `str()` text)   `T` `F` `Z` true/false/none
   `l:<k>` list of the last k values   `d:<k>` dict of the last k (key, value) pairs (key: `s:`, `i:`, T/F/Z)
   `r:<k>` the k-th container completed so far, once more (a shared object)
 
@@ -35,6 +35,20 @@ def pairUp : List J → Option (List (Key × J))
     | _, _ => none
   | _ => none
 
+def hexDigit (ch : Char) : Option Nat :=
+  if '0' ≤ ch ∧ ch ≤ '9' then some (ch.toNat - 48)
+  else if 'a' ≤ ch ∧ ch ≤ 'f' then some (ch.toNat - 87) else none
+
+/-- `x:<hex>`: an int too long for `str()` travels in hexadecimal -/
+def parseHexInt (s : String) : Option Int :=
+  let (neg, ds) := match s.toList with
+    | '-' :: r => (true, r)
+    | l => (false, l)
+  if ds.isEmpty then none else
+  match ds.foldlM (fun (a : Nat) ch => (hexDigit ch).map fun d => 16 * a + d) 0 with
+  | some n => some (if neg then -(n : Int) else (n : Int))
+  | none => none
+
 /-- state of the value builder: the stack, and the containers completed so far (a later `r:<k>`
 pushes the k-th of them again: the same object in Python, an equal value here) -/
 abbrev BState := List J × List J
@@ -45,6 +59,7 @@ def stepTok (stb : BState) (tok : String) : Option BState :=
   | ["s", cps] => (parseCps cps).map fun s => (J.str s :: st, built)
   | ["n", cps] => (parseCps cps).map fun s => (J.num s :: st, built)
   | ["i", n] => (parseInt n).map fun k => (J.int k :: st, built)
+  | ["x", h] => (parseHexInt h).map fun k => (J.int k :: st, built)
   | ["T"] => some (J.kw .tt :: st, built)
   | ["F"] => some (J.kw .ff :: st, built)
   | ["Z"] => some (J.kw .nul :: st, built)
@@ -101,7 +116,8 @@ def handle (line : String) : String :=
   | "gen" :: m :: off :: val =>
     match constsOf m, off.toNat?, parseValue val with
     | some c, some o, some v =>
-      if wfB c.strKeys v then "ok " ++ showChunks (gen c limits v o) else "out-of-domain"
+      if !intsPrintable v then "err ValueError"
+      else if wfB c.strKeys v && distinctB v then "ok " ++ showChunks (gen c limits v o) else "out-of-domain"
     | _, _, _ => "bad-op"
   | ["rd", m, cps] =>
     match constsOf m, parseCps cps with
@@ -114,7 +130,8 @@ def handle (line : String) : String :=
     match constsOf m, parseValue val with
     | some c, some v =>
       -- the model is a pure function: every way of consuming the result sees the same text / lines
-      if !wfB c.strKeys v then "out-of-domain"     -- the hypothesis `WF` of the theorems, checked on every request
+      if !intsPrintable v then "err ValueError"   -- CPython's str(int) limit (4300 digits): outside the domain
+      else if !(wfB c.strKeys v && distinctB v) then "out-of-domain"     -- the hypothesis `WF` of the theorems, checked on every request
       else if op = "pp" || op = "ps" || op = "pa" || op = "pc" || op = "pw" then "ok " ++ showCps (text (gen c limits v 0))
       else if op = "ln" || op = "lc" || op = "lr" || op = "l2" || op = "li" || op = "lp" || op = "lz" then
         "ok " ++ "|".intercalate ((groupLines (gen c limits v 0)).map fun l => showCps (lineText l))
